@@ -23,7 +23,7 @@ ASSUMPTIONS = ['vf/ball.py enclosures are correct (validated by python -m vf.bal
                'of 3x-precision values of the tree and of release 1.3.0 on >= 10^4 points per function)',
                'arguments are injected exactly through ctx.make_mpf/make_mpc, results read from ._mpf_/._mpc_',
                'branch conventions = formulas of function_docs.py with log/sqrt continuous from above (no signed zeros)']
-LEVEL_TEXT = ('exploration: ~2*10^5 (quick) / ~3*10^6 (thorough) function values of the real code, each decided against a rigorous '
+LEVEL_TEXT = ('exploration: ~6.4*10^5 (quick) / ~1.3*10^7 (thorough) function values of the real code, each decided against a rigorous '
               'interval enclosure of the exact value; violated only when the whole enclosure is outside the tolerance')
 LEVEL_NOTE = ('trusted base: vf/ball.py; inputs not generated are not covered; functions outside the statement (coth, sech, csch, '
               'sincpi) are observed, not asserted; regime-keyed known findings mask further degradation inside a listed cell up to '
@@ -32,7 +32,7 @@ TECHNIQUE = 'runtime reference-model monitor: rigorous ball-arithmetic oracle on
 SHARD_TIMEOUT = {'quick': 420, 'thorough': 3000}
 
 N_SHARDS = 16
-CASES = {'quick': 11000, 'thorough': 150000}
+CASES = {'quick': 40000, 'thorough': 800000}
 
 # ---------------------------------------------------------------------------------------
 # the function table (fixed before looking at any result)
@@ -179,6 +179,17 @@ def complex_point(r, fname, p):
 
     def rnd():
         return rand_dy(r, bits, -40, lim)
+    if k < 0.05 and fname in ('ln', 'log', 'log10', 'power', 'powm1', 'root', 'cbrt', 'sqrt', 'arg'):
+        # p-bit (or 53-bit) roundings of points of the unit circle: |z|^2 - 1 ~ 2^-min(p,53)
+        th = r.uniform(-math.pi, math.pi)
+        q = min(p, 53)
+
+        def rd(v):
+            if v == 0:
+                return (0, 0)
+            fm, fe = math.frexp(v)
+            return (int(round(fm * (1 << q))), fe - q)
+        return rd(math.cos(th)), rd(math.sin(th)), 'unit-circle'
     if k < 0.18:
         return rnd(), rnd(), 'rand'
     if k < 0.28:
@@ -614,3 +625,137 @@ def replay(case, rec):
         else:
             specs.append(('C', rw(s[1]), rw(s[2])))
     check_case(mp, rec, c['f'], c['label'], c['kind'], specs, int(c['prec']), c['class'], asserted=c['f'] not in OBSERVED_ONLY)
+
+
+# ---------------------------------------------------------------------------------------
+# Known defects of the pinned tree (all also present in release 1.3.0), as REGIONS of the a-priori partition.
+# A region lists the cells that one code mechanism can reach (reasoned from the mechanism, not from the seeds
+# that happened to hit it); findings.d/C12.json is the expansion written by  python -m vf.props.C12 --write-findings.
+# ceiling = bits beyond the tolerance that the mechanism can cost in that cell (None: the mechanism can destroy
+# the value completely, e.g. wrong sign / zero / garbage).
+# ---------------------------------------------------------------------------------------
+BOTH = ('yes', 'no')
+KNOWN_REGIONS = [
+    dict(id='atan-atanh-small', funcs=['atan', 'atanh'], kinds='C', specials=['0'], dists=['near', 'vnear'],
+         mags={'small': 40, 'tiny': None}, aniso=BOTH,
+         what='complex atan/atanh subtract two logarithms computed with p+15 bits absolute accuracy (mpc_atan, mpc_atanh): for |z| << 1 '
+              'both parts lose log2(1/|z|)-15 bits, for |z| < 2^-p they are rounding noise',
+         witness={'call': 'atan(mpc(1e-10,1e-10))', 'prec': 53, 'observed': '(1.0e-10 + 9.99999999968311e-11j)',
+                  'exact': '(1.0e-10 + 1.0000000000000000003e-10j)'}),
+    dict(id='asin-asinh-small', funcs=['asin', 'asinh'], kinds='C', specials=['0'], dists=['near', 'vnear'],
+         mags={'small': 40, 'tiny': None}, aniso=BOTH,
+         what='complex asin/asinh (acos_asin, Hull et al. regions) work with p+10 bits relative to 1: for |z| << 1 both parts lose '
+              'log2(1/|z|)-10 bits; the smaller part of a tiny or anisotropic argument is lost entirely',
+         witness={'call': 'asin(mpc(-2**-39,-2**-39))', 'prec': 262, 'observed_error_bits_beyond_tolerance': 27}),
+    dict(id='reciprocal-huge', funcs=['acot', 'acoth', 'acsc', 'acsch'], kinds='C', specials=['inf'], dists=['near', 'vnear'],
+         mags={'large': 40, 'huge': None}, aniso=BOTH,
+         what='acot/acoth/acsc/acsch(z) = atan/atanh/asin/asinh(1/z): for huge |z| the small argument 1/z hits the small-argument defect of '
+              'the base function (atan-atanh-small / asin-asinh-small)',
+         witness={'call': 'acot(mpc(2**100, 2**60))', 'prec': 53}),
+    dict(id='near-one', funcs=['acos', 'acosh', 'asec', 'asech', 'acsc', 'acoth'], kinds='RC', specials=['1', '-1'],
+         dists=['near', 'vnear'], mags={'unit': None}, aniso=BOTH,
+         what='acosh(x) = log(x + sqrt(x^2-1)) with the sum rounded at p+15 bits (mpf_acosh) and acos next to +-1 lose up to half of the '
+              'bits; asec/asech/acsc/acoth(x) = f(1/x) round 1/x to the working precision first (next to +-1 this loses the distance to 1: '
+              'results 0, inf or with half of the bits)',
+         witness={'call': 'acosh(1+2**-40)', 'prec': 53, 'correct_bits': 48}),
+    dict(id='reciprocal-near-i', funcs=['acot', 'acsch'], kinds='C', specials=['i', '-i'], dists=['near', 'vnear'],
+         mags={'unit': None}, aniso=BOTH,
+         what='acot(z) = atan(1/z), acsch(z) = asinh(1/z) round 1/z first: next to the branch points +-i the distance to the branch point '
+              'is lost (results inf or inaccurate)',
+         witness={'call': 'acot(mpc(0, 1-2**-174))', 'prec': 87, 'observed': '(0.0 - infj)'}),
+    dict(id='acosh-branch-sign', funcs=['acosh'], kinds='C', specials=['0', '1', '-1'], dists=['far', 'near', 'vnear'],
+         mags={'tiny': None, 'small': None, 'unit': None}, aniso=BOTH,
+         what='mpc_acosh chooses between +i acos(z) and -i acos(z) from the sign of the COMPUTED Im acos(z), which underflows to 0 when '
+              '|Im z| is below the working precision: for Im z < 0 the imaginary part of acosh gets the wrong sign',
+         witness={'call': 'acosh(mpc(0.5,-1e-40))', 'prec': 53, 'observed': '(0.0 + 1.0471975511966j)',
+                  'exact': '(1.1547e-40 - 1.0471975511966j)'}),
+    dict(id='asech-branch-sign', funcs=['asech'], kinds='C', specials=['1', '-1', 'inf'], dists=['far', 'near', 'vnear'],
+         mags={'unit': None, 'large': None, 'huge': None}, aniso=BOTH,
+         what='asech(z) = acosh(1/z) inherits the branch-sign defect of mpc_acosh (and its small-part loss) for arguments next to the '
+              'real axis and for huge arguments',
+         witness={'call': 'asech(mpc(-2.0000000000000004, 2**-1000))', 'prec': 601}),
+    dict(id='tan-pole-cancellation', funcs=['tan', 'cot'], kinds='C', specials=['kpi2'], dists=['near', 'vnear'],
+         mags={'unit': None, 'large': None}, aniso=BOTH,
+         what='mpc_tan divides by cos(2a)+cosh(2b) computed with p+15 bits ("TODO: handle cancellation"): next to the poles (and for cot '
+              'next to the zeros of tan) the denominator cancels; the result is inaccurate, wrong by orders of magnitude or the '
+              'division raises ZeroDivisionError',
+         witness={'call': 'tan(mpc(0xbfd560593060335*2**-49, 2**-30))', 'prec': 30, 'observed': 'ZeroDivisionError'}),
+    dict(id='tanh-pole-cancellation', funcs=['tanh'], kinds='C', specials=['ikpi2'], dists=['near', 'vnear'],
+         mags={'unit': None, 'large': None}, aniso=BOTH,
+         what='mpc_tanh = -i tan(iz) inherits the denominator cancellation of mpc_tan next to the poles i(k+1/2)pi',
+         witness={'call': 'tanh(mpc(-2**-24, 221069929750889*2**-47))', 'prec': 24, 'observed': 'ZeroDivisionError'}),
+    dict(id='cospi-sinpi-imag', funcs=['cospi', 'sinpi'], kinds='C', specials=['inf'], dists=['far', 'near', 'vnear'],
+         mags={'large': 48, 'huge': None}, aniso=BOTH,
+         what='mpc_cos_pi/mpc_sin_pi round pi*Im(z) to p+5 bits before cosh/sinh: the relative error of the result grows like |pi Im z| '
+              '(2-3 bits beyond the tolerance at |Im z| = 64, everything for |Im z| >= 2^p)',
+         witness={'call': 'cospi(mpc(-0.998, 64))', 'prec': 100, 'observed_error': '47 * 2^-p'}),
+    dict(id='log-quarter-long-mantissa', funcs=['ln', 'log10', 'log:base', 'log1p', 'root', 'power:int', 'power:half', 'power:real',
+                                                'power:complex', 'powm1:int', 'powm1:half', 'powm1:real', 'powm1:complex'],
+         kinds='RC', specials=['0'], dists=['far'], mags={'unit': None}, aniso=BOTH,
+         what='mpf_log treats magnitude -1 like magnitude +1 (abs_mag <= 1): an argument in [1/4, 1/2) with a mantissa longer than p+20 '
+              'bits whose bits below the leading one vanish for more than p+20 places is handled as "1 + eps" and log returns about eps',
+         witness={'call': 'ln(mpf(0.25) + 2**-163)  (exact 162-bit argument)', 'prec': 81, 'observed': '2**-161',
+                  'exact': '-1.3862943611198906'}),
+    dict(id='complex-power-exponent-guard', funcs=['power:int', 'power:real', 'power:complex'], kinds='C', specials=['0', 'inf'],
+         dists=['near', 'vnear'], mags={'tiny': 14, 'small': 14, 'large': 14, 'huge': 14}, aniso=BOTH,
+         what='complex powers z**w with |w log z| ~ 2^19 (|w| to 1000, |z| to 2^+-1000) lose a few bits more than the guard bits of '
+              'mpc_pow/mpc_pow_int provide (log2|w log z| - guard)',
+         witness={'call': 'power(mpc(901*2**-742, -513*2**-746), 789)', 'prec': 10, 'observed_error': 'about 100 %'}),
+]
+# mechanism keys that are not cells of the partition
+KNOWN_OTHER = [
+    ('C12/tan/C/raises:ZeroDivisionError', 'tan-pole-cancellation'), ('C12/cot/C/raises:ZeroDivisionError', 'tan-pole-cancellation'),
+    ('C12/tanh/C/raises:ZeroDivisionError', 'tanh-pole-cancellation'),
+    ('C12/acot/C/nonfinite', 'reciprocal-near-i'), ('C12/acsch/C/nonfinite', 'reciprocal-near-i'),
+    ('C12/acoth/C/nonfinite', 'near-one'), ('C12/acoth/R/nonfinite', 'near-one'),
+]
+
+
+def known_findings():
+    out = []
+    by_id = {}
+    for reg in KNOWN_REGIONS:
+        by_id[reg['id']] = reg
+        for f in reg['funcs']:
+            base = f.split(':')[0]
+            for kind in reg['kinds']:
+                if kind == 'C' and base in REAL_ONLY:
+                    continue
+                for sp in reg['specials']:
+                    assert sp in SPECIALS[base], (f, sp)
+                    for d in reg['dists']:
+                        for mag, ceil in reg['mags'].items():
+                            for an in reg['aniso']:
+                                if kind == 'R' and an == 'yes':
+                                    continue
+                                key = 'C12/%s/%s/%s:%s/%s/aniso:%s' % (f, kind, sp, d, mag, an)
+                                out.append({'property': 'C12', 'key': key, 'status': 'known', 'mechanism': reg['id'],
+                                            'what': reg['what'], 'witness': reg['witness'], 'ceiling': ceil})
+    for key, rid in KNOWN_OTHER:
+        reg = by_id[rid]
+        out.append({'property': 'C12', 'key': key, 'status': 'known', 'mechanism': rid, 'what': reg['what'],
+                    'witness': reg['witness'], 'ceiling': None})
+    # a cell may belong to two regions (acosh near +-1: near-one and acosh-branch-sign): keep the laxer ceiling, join the texts
+    merged = {}
+    for f in out:
+        m = merged.get(f['key'])
+        if m is None:
+            merged[f['key']] = f
+        else:
+            m['mechanism'] += '+' + f['mechanism']
+            m['what'] += ' | ' + f['what']
+            if f['ceiling'] is None or m['ceiling'] is None:
+                m['ceiling'] = None
+            else:
+                m['ceiling'] = max(m['ceiling'], f['ceiling'])
+    return list(merged.values())
+
+
+if __name__ == '__main__':
+    import sys, json, os
+    if '--write-findings' in sys.argv:
+        path = os.path.join(os.path.dirname(os.path.dirname(os.path.dirname(os.path.abspath(__file__)))), 'findings.d', 'C12.json')
+        fs = known_findings()
+        with open(path, 'w') as fh:
+            json.dump({'findings': fs}, fh, indent=1)
+        print('wrote %d cells to %s' % (len(fs), path))
